@@ -410,7 +410,7 @@ private:
     	un_control_field unnumbered;
     } control_field;
     Format type_;
-    uint8_t information_field_length_;
+    uint32_t information_field_length_;
     field_list information_fields_;
 };
 
